@@ -611,7 +611,8 @@ def make_program(geo: Dict[str, Any], cfg_seed: int, identity: bool = False) -> 
             # ... and a third time after the vertices were put back exactly where they had been
             ops.append({"op": "restore_vertices"})
             ops.append({"op": "write", "path": DICT_PATH + ".third"})
-    return {"points": geo["points"], "ops": ops, "meta": dict(geo.get("meta", {}), cfg_seed=cfg_seed)}
+    return {"points": geo["points"], "ops": ops, "meta": dict(geo.get("meta", {}), cfg_seed=cfg_seed),
+            "point_type": "list" if identity else cs.pick(["list", "list", "tuple", "array", "int_where_whole"])}
 
 
 def _slots():
